@@ -33,6 +33,9 @@ pub enum Op {
 	InitExact { slot: usize },
 	/// (directed histories only) cancel of that send: the third account is made active for the call
 	CancelNamed { slot: usize },
+	/// (directed histories only) a small send that requires no confirmations and takes every eligible output,
+	/// unconfirmed change of a pending transaction included
+	InitZeroConf { slot: usize },
 }
 
 #[derive(Clone, Debug, Serialize, Deserialize, Default)]
@@ -190,6 +193,18 @@ impl Model for M {
 							s1: Some(slate_to_json(&s1)),
 							..Default::default()
 						});
+						out.label = "ok".into();
+					}
+					Err(e) => out.label = err_label(&e),
+				}
+			}
+			Op::InitZeroConf { slot } => {
+				let mut args = default_args(5 * G);
+				args.minimum_confirmations = 0;
+				args.selection_strategy_is_use_all = true;
+				match w.w("A").init_send(args) {
+					Ok(s1) => {
+						sl[*slot] = Some(Slot { kind: "send".into(), id: s1.id.to_string(), s1: Some(slate_to_json(&s1)), ..Default::default() });
 						out.label = "ok".into();
 					}
 					Err(e) => out.label = err_label(&e),
@@ -522,12 +537,13 @@ fn op_kind(op: &Op) -> &'static str {
 		Op::InitNamed { .. } => "init-named",
 		Op::InitExact { .. } => "init-exact",
 		Op::CancelNamed { .. } => "cancel-named",
+		Op::InitZeroConf { .. } => "init-zero-conf",
 	}
 }
 
 pub fn replay(payload: &Value) -> i32 {
 	let path: Vec<Op> = serde_json::from_value(payload["path"].clone()).unwrap();
-	let m = M { nslots: 2 };
+	let m = M { nslots: payload["slots"].as_u64().unwrap_or(2) as usize };
 	let dir = format!("{}/c03-replay", scratch_root());
 	match run_path(&m, &dir, &path) {
 		Ok(p) => {
@@ -587,7 +603,27 @@ pub fn run(_args: &[String]) -> i32 {
 			paths.push(vec![first.clone(), Op::Lock { slot: 0 }, Op::Receive { slot: 0 }, Op::Cancel { slot: 0 }, Op::Finalize { slot: 0 }]);
 			paths.push(vec![first.clone(), Op::Lock { slot: 0 }, Op::Receive { slot: 0 }, Op::Cancel { slot: 0 }, Op::Init { slot: 1, use_all: true }, Op::Lock { slot: 1 }, Op::Finalize { slot: 0 }]);
 		}
+		// zero-confirmation sends over the unconfirmed change of a pending transaction: a reservation must
+		// take an unconfirmed output out of the next selection as well (three slates: a third slot)
+		let m3 = M { nslots: 3 };
+		let zero: Vec<Vec<Op>> = vec![
+			vec![Op::Init { slot: 0, use_all: false }, Op::Lock { slot: 0 }, Op::InitZeroConf { slot: 1 }, Op::Lock { slot: 1 }, Op::InitZeroConf { slot: 2 }, Op::Lock { slot: 2 }],
+			vec![Op::Init { slot: 0, use_all: false }, Op::Lock { slot: 0 }, Op::Receive { slot: 0 }, Op::Finalize { slot: 0 }, Op::Post { slot: 0 }, Op::InitZeroConf { slot: 1 }, Op::Lock { slot: 1 }, Op::InitZeroConf { slot: 2 }, Op::Lock { slot: 2 }],
+			vec![Op::Init { slot: 0, use_all: false }, Op::Lock { slot: 0 }, Op::InitZeroConf { slot: 1 }, Op::InitZeroConf { slot: 2 }, Op::Lock { slot: 1 }, Op::Lock { slot: 2 }],
+		];
 		let root = scratch_root();
+		let zres = par_map(&zero, workers(), |i, p| run_path(&m3, &format!("{}/c03-z{}", root, i), p));
+		for (p, r) in zero.iter().zip(zres.into_iter()) {
+			directed += p.len();
+			match r {
+				Ok(problems) => {
+					for (k, v) in problems {
+						rep.add_finding(Finding { key: format!("C03/{}", k), what: format!("{} — after {:?}", v, p), replay: json!({"path": p, "slots": 3}) });
+					}
+				}
+				Err(e) => return rep.finish(Some(format!("directed path {:?}: {}", p, e))),
+			}
+		}
 		let res = par_map(&paths, workers(), |i, p| {
 			// every prefix end is checked by run_path only at the last step: run the two tails separately
 			run_path(&m, &format!("{}/c03-d{}", root, i), p)
